@@ -54,10 +54,11 @@ def obligations(tier):
                               tier="quick" if q else "thorough",
                               desc="escrypt_kdf refuses exactly the (N, r, p, buflen) outside RFC 7914 / documented limits or when the scratch region cannot be obtained; otherwise requests exactly 128rp+128rN+256r+64 bytes and starts PBKDF2 over 128rp bytes",
                               bounds="N, buflen, available region size 64-bit symbolic, allocator outcome symbolic; (r, p) enumerated over boundary values"))
-    for part, nm in ((0, "needs-rehash"), (1, "raw-api")):
-        obs.append(Ob("scrypt-" + nm, "C08/scrypt_api.c", units=[SC + "pwhash_scryptsalsa208sha256.c", SC + "crypto_scrypt-common.c", "sodium/utils.c", "crypto_verify/verify.c"],
-                      stubs=["misuse.c", "rng.c", "libc.c", "x86_builtins.c"], defs={"PART": part}, unwind=110, timeout=1200, mem=8, family="scrypt-api",
+    for part, nm in ((0, "needs-rehash"), (1, "raw-api"), (2, "str-api")):
+        obs.append(Ob("scrypt-" + nm, "C08/scrypt_api.c", instrument=([["--replace-calls", "_sodium_escrypt_gensalt_r:cut_gensalt"], ["--replace-calls", "_sodium_escrypt_r:cut_escrypt_r"]] if part == 2 else []), units=[SC + "pwhash_scryptsalsa208sha256.c", SC + "crypto_scrypt-common.c", "sodium/utils.c", "crypto_verify/verify.c"],
+                      stubs=["misuse.c", "rng.c", "libc.c", "x86_builtins.c"], defs={"PART": part}, unwind=110, timeout=1200, mem=8, family="scrypt-api", replay=("model" if part == 2 else "native"),
                       desc={0: "scrypt str_needs_rehash: -1 / 0 / 1 exactly as documented, on an arbitrary 102-byte buffer and all 64-bit limits",
-                            1: "scrypt raw API: output-length limits, aliasing, parameter selection forwarded to the core, failure propagation"}[part],
+                            1: "scrypt raw API: output-length limits, aliasing, parameter selection forwarded to the core, failure propagation",
+                            2: "scrypt str / str_verify: salt = 32 source bytes, selected parameters, buffers forwarded, failure propagation; verify <=> recomputed string equals the presented one (all 102 bytes)"}[part],
                       bounds="all string bytes, opslimit, memlimit, lengths (64-bit) symbolic; core and allocator outcomes symbolic"))
     return obs
